@@ -429,7 +429,15 @@ func (u *Upgrade) releasingUpgrade(c chan<- resultMessage, upgradedRelease *rele
 		slog.Debug("upgrade hooks disabled", "name", upgradedRelease.Name)
 	}
 
-	results, err := u.cfg.KubeClient.Update(current, target, u.Force)
+	var results *kube.Result
+	var err error
+	// Adopted resources are appended to current as their own target, so a two-way patch for
+	// them is empty: take ownership with a three-way merge against the live object, as install does.
+	if tw, ok := u.cfg.KubeClient.(kube.InterfaceThreeWayMerge); ok && u.TakeOwnership {
+		results, err = tw.UpdateThreeWayMerge(current, target, u.Force)
+	} else {
+		results, err = u.cfg.KubeClient.Update(current, target, u.Force)
+	}
 	if err != nil {
 		u.cfg.recordRelease(originalRelease)
 		u.reportToPerformUpgrade(c, upgradedRelease, results.Created, err)
